@@ -514,6 +514,10 @@ class Model:
         if isinstance(node, ast.Call) and dotted(node.func) in ("frozenset", "set", "tuple", "list", "bytes") and len(node.args) == 1:
             v = self.const(mi, node.args[0], _depth + 1)
             return {"frozenset": frozenset, "set": set, "tuple": tuple, "list": list, "bytes": bytes}[dotted(node.func)](v)
+        if isinstance(node, ast.Call) and dotted(node.func) == "ord" and len(node.args) == 1 and not node.keywords:
+            v = self.const(mi, node.args[0], _depth + 1)
+            if isinstance(v, (str, bytes)) and len(v) == 1:
+                return ord(v)
         raise AnalysisError(f"cannot fold constant {src(node)[:60]}")
 
     def enum_members(self, ci: ClassInfo) -> dict:
